@@ -67,6 +67,27 @@ fn main() {
             if out != input || err != input { println!("FAIL: limit {} with {} bytes: pieces do not add up (stdout {} / stderr {} bytes)", limit, n, out.len(), err.len()); bad += 1; }
         }
     }
+    // text variants: the strings are the lossy UTF-8 decoding of exactly the bytes (valid text, sequences cut short at the end of the
+    // output with 1, 2 or 3 bytes present, invalid bytes in the middle, lone continuation bytes)
+    {
+        *progress.lock().unwrap() = "text variants".into();
+        let euro = "\u{20ac}".as_bytes().to_vec();       // 3 bytes
+        let smile = "\u{1f600}".as_bytes().to_vec();      // 4 bytes
+        let mut pats: Vec<Vec<u8>> = vec![b"plain ascii\n".to_vec(), "gr\u{fc}\u{df}e \u{20ac} \u{1f600}\n".as_bytes().to_vec(), vec![], vec![0xff], vec![0x80, b'a', 0xbf], vec![b'a', 0xc3], vec![b'a', 0xe2, 0x82], vec![b'a', 0xf0, 0x9f], vec![b'a', 0xf0, 0x9f, 0x98], vec![0xf0, 0x9f, 0x98, b'a'], vec![0xe2, 0x28, 0xa1], vec![0xc0, 0xaf], vec![0xed, 0xa0, 0x80]];
+        for cut in 1..3 { let mut v = b"xy".to_vec(); v.extend(&euro[..cut]); pats.push(v); let mut v = euro.clone(); v.extend(&euro[..cut]); v.push(b'z'); pats.push(v); }
+        for cut in 1..4 { let mut v = b"xy".to_vec(); v.extend(&smile[..cut]); pats.push(v); let mut v = vec![0xff]; v.extend(&smile[..cut]); pats.push(v); }
+        for pat in pats {
+            checked += 1;
+            let want = String::from_utf8_lossy(&pat).into_owned();
+            let mut comm = Exec::cmd("sh").arg("-c").arg("tee /dev/stderr").stdin(pat.clone()).stdout(Redirection::Pipe).stderr(Redirection::Pipe).communicate().unwrap();
+            match comm.read_string() {
+                Ok((o, e)) => {
+                    if o.as_deref() != Some(want.as_str()) || e.as_deref() != Some(want.as_str()) { println!("FAIL: bytes {:?} come back as text {:?} / {:?}, their lossy decoding is {:?}", pat, o, e, want); bad += 1; }
+                }
+                Err(e) => { println!("FAIL: read_string failed for {:?}: {:?}", pat, e.kind()); bad += 1; }
+            }
+        }
+    }
     // time limit: a silent child times out no earlier than the limit and only with a limit; reads resume where they stopped
     {
         *progress.lock().unwrap() = "time limits".into();
